@@ -107,6 +107,48 @@ func (env *fcEnv) showEvs(es []gmsl.PDU) string {
 	return strings.Join(out, ",")
 }
 
+// showEv identifies an EVENT (not just an ID): the first pool entry with the same ID and the same JSON. In room
+// versions 1 and 2 two different events can carry one event ID, so the ID alone does not say which one came back.
+func (env *fcEnv) showEv(e gmsl.PDU) string {
+	for i, p := range env.pool {
+		if p.EventID() == e.EventID() && string(p.JSON()) == string(e.JSON()) {
+			return "#" + strconv.Itoa(i)
+		}
+	}
+	return env.showID(e.EventID())
+}
+
+func (env *fcEnv) showEvsX(es []gmsl.PDU) string {
+	var out []string
+	for _, e := range es {
+		out = append(out, env.showEv(e))
+	}
+	return strings.Join(out, ",")
+}
+
+// sigClasses: for every pool entry the index of the first pool entry with the same redacted JSON -- the message
+// VerifyEventSignatures hands to the JSONVerifier, hence the granularity of the scripted signature oracle.
+func (env *fcEnv) sigClasses() (string, error) {
+	var reds []string
+	var out []string
+	for i, p := range env.pool {
+		red, err := env.impl.RedactEventJSON(p.JSON())
+		if err != nil {
+			return "", err
+		}
+		reds = append(reds, string(red))
+		c := i
+		for j := 0; j < i; j++ {
+			if reds[j] == reds[i] {
+				c = j
+				break
+			}
+		}
+		out = append(out, strconv.Itoa(c))
+	}
+	return joinOrDash(out, ","), nil
+}
+
 func (env *fcEnv) showLog() string {
 	l := append([]string{}, env.log...)
 	sort.Strings(l)
@@ -371,19 +413,26 @@ func execFedcheck(op string, args []string) (res string) {
 		}
 		resp := &fcStateResponse{auth: toEventJSONs(auth), state: toEventJSONs(state)}
 		prov := env.provider(args[5])
+		// optional last argument: the signature classes of the pool (checked against the library's redaction)
+		if k := map[string]int{"state": 6, "sendjoin": 7}[op]; len(args) > k {
+			cls, err := env.sigClasses()
+			if err != nil || cls != args[k] {
+				return "err:construct:signature classes"
+			}
+		}
 		if op == "state" {
 			a, s, err := gmsl.CheckStateResponse(ctx, resp, rv, v, prov, StdQuerier)
 			if err != nil {
 				return fcStateErr(err)
 			}
-			return "ok:" + env.showEvs(a) + "|" + env.showEvs(s) + env.showLog()
+			return "ok:" + env.showEvsX(a) + "|" + env.showEvsX(s) + env.showLog()
 		}
 		j, _ := strconv.Atoi(args[6])
 		out, err := gmsl.CheckSendJoinResponse(ctx, rv, resp, v, env.pool[j], prov, StdQuerier)
 		if err != nil {
 			return fcStateErr(err)
 		}
-		return "ok:" + env.showEvs(out.GetAuthEvents().TrustedEvents(rv, false)) + "|" + env.showEvs(out.GetStateEvents().TrustedEvents(rv, false)) + env.showLog()
+		return "ok:" + env.showEvsX(out.GetAuthEvents().TrustedEvents(rv, false)) + "|" + env.showEvsX(out.GetStateEvents().TrustedEvents(rv, false)) + env.showLog()
 	case "chain":
 		root, _ := strconv.Atoi(args[2])
 		err := gmsl.VerifyEventAuthChain(ctx, env.pool[root], env.provider(args[3]), StdQuerier)
@@ -430,6 +479,8 @@ func execFedcheck(op string, args []string) (res string) {
 		}
 		sort.Strings(out)
 		return "ok:" + strconv.Itoa(len(results)) + ":" + strings.Join(out, ",") + env.showLog()
+	case "backfill_props":
+		return "ok" // the driver evaluates the property's clauses on the implementation's answer carried in the op
 	case "backfill":
 		v, err := env.verifier(args[3])
 		if err != nil {
@@ -451,7 +502,7 @@ func execFedcheck(op string, args []string) (res string) {
 		evs, err := gmsl.RequestBackfill(ctx, "me", b, v, "!room:hs1", rv, []string{"$from"}, limit, StdQuerier)
 		var ids []string
 		for _, e := range evs {
-			ids = append(ids, env.showID(e.EventID()))
+			ids = append(ids, env.showEv(e))
 		}
 		sort.Strings(ids)
 		s := "ok:" + strings.Join(ids, ",")
@@ -480,7 +531,7 @@ func fcLoadClass(env *fcEnv, r gmsl.EventLoadResult) string {
 		cls = "parse"
 	}
 	if r.Event != nil {
-		return cls + ":" + env.showID(r.Event.EventID())
+		return cls + ":" + env.showEv(r.Event)
 	}
 	return cls
 }
@@ -1031,6 +1082,213 @@ func pickFaults(r *Rng) []string {
 	return out
 }
 
+// fcTwinKinds / fcTwinPlaces: room versions 1 and 2 take the event ID from the event's own `event_id` member, so a
+// response can carry two DIFFERENT events under one ID. kinds: badsig (the twin's signature does not verify),
+// disallowed-other (verified, another (type, state_key), refused by the auth rules), disallowed-same (verified, the
+// genuine event's (type, state_key), refused). places: where the genuine event G and its twin T sit --
+// 0: G in auth_events, T in state_events (in G's slot when it had one); 1: T in G's slot of auth_events, G in
+// state_events; 2: both in auth_events, G first; 3: both in auth_events, T first.
+var fcTwinKinds = []string{"badsig", "disallowed-other", "disallowed-same"}
+
+const fcTwinPlaces = 4
+
+func fcTwinScenario(r *Rng, ver string, kind string, place int, provMode string) *fcScenario {
+	var extra []string
+	if r.Chance(20) {
+		extra = []string{Pick(r, []string{"badsig", "missing", "disallowed"})}
+	}
+	sc := fcStateScenario(r, ver, extra, provMode)
+	if sc == nil || sc.rm.g.fmtV != 1 {
+		return nil
+	}
+	rm := sc.rm
+	// the genuine event: part of the current state (so it is in both lists), not the create event
+	var cands []*Ev
+	for _, e := range rm.state() {
+		if e != rm.create {
+			cands = append(cands, e)
+		}
+	}
+	g := Pick(r, cands)
+	var content map[string]interface{}
+	if json.Unmarshal(g.PDU.Content(), &content) != nil || content == nil {
+		return nil
+	}
+	typ, sender, sk := g.PDU.Type(), string(g.PDU.SenderID()), g.PDU.StateKey()
+	switch kind {
+	case "badsig":
+		// the content an attacker would like to see accepted; it was never signed
+		if typ == spec.MRoomPowerLevels {
+			us, _ := content["users"].(map[string]interface{})
+			if us == nil {
+				us = map[string]interface{}{}
+			}
+			us["@mallory:hs9"] = 100
+			content["users"] = us
+		} else {
+			content["displayname"] = "twin"
+			content["join_rule"] = "public"
+		}
+	case "disallowed-other":
+		typ, sender, sk = "m.room.name", "@mallory:hs9", sp("")
+		content = map[string]interface{}{"name": "twin"}
+	case "disallowed-same":
+		sender = "@mallory:hs9" // never joined: refused whatever the type
+		content["displayname"] = "twin"
+	}
+	t, cls := rm.g.MkU(typ, sender, sk, content, g.PDU.PrevEventIDs(), g.PDU.AuthEventIDs(), map[string]interface{}{"event_id": g.ID})
+	if t == nil || t.ID != g.ID || string(t.JSON) == string(g.JSON) {
+		return nil
+	}
+	rm.add(t, cls)
+	gTok, tTok := rm.tok(g), rm.tok(t)
+	sameTuple := kind != "disallowed-other"
+	replace := func(l []string, old, new string) ([]string, bool) {
+		out := append([]string{}, l...)
+		for i, x := range out {
+			if x == old {
+				out[i] = new
+				return out, true
+			}
+		}
+		return out, false
+	}
+	switch place {
+	case 0:
+		var ok bool
+		if sameTuple {
+			sc.state, ok = replace(sc.state, gTok, tTok)
+		}
+		if !ok {
+			sc.state = append(sc.state, tTok)
+		}
+	case 1:
+		var ok bool
+		if sc.auth, ok = replace(sc.auth, gTok, tTok); !ok {
+			sc.auth = append([]string{tTok}, sc.auth...)
+		}
+	case 2:
+		sc.auth = append(sc.auth, tTok)
+	default:
+		var out []string
+		for _, x := range sc.auth {
+			if x == gTok {
+				out = append(out, tTok)
+			}
+			out = append(out, x)
+		}
+		sc.auth = out
+	}
+	if kind == "badsig" {
+		sc.badsig = append(sc.badsig, rm.idx[t])
+		if !sc.nilProv && provMode != "empty" {
+			// what the provider has under the shared ID, should the code ask: the genuine event, the twin, nothing
+			key := "#" + strconv.Itoa(rm.idx[g])
+			switch r.Intn(3) {
+			case 0:
+				sc.prov = append(sc.prov, key+"=r"+strconv.Itoa(rm.idx[g]))
+			case 1:
+				sc.prov = append(sc.prov, key+"=r"+strconv.Itoa(rm.idx[t]))
+			default:
+				sc.prov = append(sc.prov, key+"=n")
+			}
+		}
+	}
+	sc.labels = append(sc.labels, "twin-"+kind, "twin-place"+strconv.Itoa(place))
+	return sc
+}
+
+// sigClassArg computes the signature classes of a pool the way the harness will check them.
+func fcSigClassArg(ver string, pool []*Ev) string {
+	impl := gmsl.MustGetRoomVersion(gmsl.RoomVersion(ver))
+	var reds, out []string
+	for i, e := range pool {
+		red, err := impl.RedactEventJSON(e.JSON)
+		if err != nil {
+			red = []byte("unredactable:" + strconv.Itoa(i))
+		}
+		reds = append(reds, string(red))
+		c := i
+		for j := 0; j < i; j++ {
+			if reds[j] == reds[i] {
+				c = j
+				break
+			}
+		}
+		out = append(out, strconv.Itoa(c))
+	}
+	return joinOrDash(out, ",")
+}
+
+// fcRogueKinds: auth chains in which a FETCHED auth event cites no auth events at all and is refused by the auth rules
+// (only m.room.create may have an empty auth_events list).
+//   join      an outsider's join citing nothing, cited by the outsider's message (the root)
+//   join-deep the same join, cited by the outsider's profile change, cited by the message (two levels down)
+//   levels    an outsider's power-levels event citing nothing that makes everybody an admin, cited by a member's topic change
+//   create    a second create event by the outsider with a prev event (refused: a create event has none)
+//   root      control: the refused, citation-free join is itself the event to verify
+var fcRogueKinds = []string{"join", "join-deep", "levels", "create", "root"}
+
+func fcRogueChain(r *Rng, ver string, kind string) (rm *fcRoom, root *Ev, rogue *Ev) {
+	rm = fcHistory(r, ver)
+	if rm == nil {
+		return nil, nil, nil
+	}
+	intruder := "@intruder:hs7"
+	place := func(e *Ev, cls string) *Ev {
+		if e == nil {
+			return nil
+		}
+		rm.add(e, cls)
+		rm.before[e] = rm.state()
+		rm.history = append(rm.history, e)
+		rm.last = e.ID
+		return e
+	}
+	switch kind {
+	case "join", "join-deep", "root":
+		e, cls := rm.g.MkU(spec.MRoomMember, intruder, sp(intruder), map[string]interface{}{"membership": "join"}, rm.prev(), []string{}, nil)
+		if rogue = place(e, cls); rogue == nil {
+			return nil, nil, nil
+		}
+		rm.member[intruder] = rogue
+		if kind == "root" {
+			return rm, rogue, rogue
+		}
+		if kind == "join-deep" {
+			if rm.send(spec.MRoomMember, intruder, sp(intruder), map[string]interface{}{"membership": "join", "displayname": "I"}, true, nil) == nil {
+				return nil, nil, nil
+			}
+		}
+		root = rm.send("m.room.message", intruder, nil, map[string]interface{}{"body": "hello"}, true, nil)
+	case "levels":
+		plc := map[string]interface{}{"users": map[string]interface{}{intruder: 100}, "users_default": 100, "events_default": 0, "state_default": 50}
+		e, cls := rm.g.MkU(spec.MRoomPowerLevels, intruder, sp(""), plc, rm.prev(), []string{}, nil)
+		if rogue = place(e, cls); rogue == nil {
+			return nil, nil, nil
+		}
+		rm.pl = rogue
+		us := rm.joined()
+		root = rm.send("m.room.topic", us[len(us)-1], sp(""), map[string]interface{}{"topic": "ours"}, true, nil)
+	case "create":
+		if rm.v3 {
+			return nil, nil, nil // the create event is implicit there: nothing cites it
+		}
+		cc := map[string]interface{}{"room_version": ver, "creator": intruder}
+		e, cls := rm.g.MkU(spec.MRoomCreate, intruder, sp(""), cc, rm.prev(), []string{}, nil)
+		if rogue = place(e, cls); rogue == nil {
+			return nil, nil, nil
+		}
+		rm.create = rogue
+		u := Pick(r, rm.joined())
+		root = rm.send("m.room.message", u, nil, map[string]interface{}{"body": "hello"}, true, nil)
+	}
+	if root == nil {
+		return nil, nil, nil
+	}
+	return rm, root, rogue
+}
+
 var fcProvModes = []string{"nil", "empty", "ret", "ret", "nothing", "error", "mixed", "mixed", "other"}
 
 func genFedcheck(o *Out, tier string, r *Rng) {
@@ -1056,7 +1314,7 @@ func genFedcheck(o *Out, tier string, r *Rng) {
 			o.Count("gen-failed")
 			continue
 		}
-		res := o.Do("state", ver, sc.rm.poolArg(), joinOrDash(sc.auth, ","), joinOrDash(sc.state, ","), fcIdxList(sc.badsig), sc.provArg())
+		res := o.Do("state", ver, sc.rm.poolArg(), joinOrDash(sc.auth, ","), joinOrDash(sc.state, ","), fcIdxList(sc.badsig), sc.provArg(), fcSigClassArg(ver, sc.rm.pool))
 		record("state", sc, res)
 		o.Count("state.prov." + mode)
 		if i < 2 {
@@ -1142,10 +1400,46 @@ func genFedcheck(o *Out, tier string, r *Rng) {
 		if join == nil {
 			continue
 		}
-		res := o.Do("sendjoin", ver, rm.poolArg(), joinOrDash(sc.auth, ","), joinOrDash(sc.state, ","), fcIdxList(sc.badsig), sc.provArg(), strconv.Itoa(rm.idx[join]))
+		res := o.Do("sendjoin", ver, rm.poolArg(), joinOrDash(sc.auth, ","), joinOrDash(sc.state, ","), fcIdxList(sc.badsig), sc.provArg(), strconv.Itoa(rm.idx[join]), fcSigClassArg(ver, rm.pool))
 		record("sendjoin", sc, res)
 		if i < 2 {
 			o.Sample("sendjoin " + ver + " faults=" + strings.Join(sc.labels, "+") + " -> " + res)
+		}
+	}
+	// ---- two different events under one event ID (room versions 1 and 2): every kind x placement, systematically
+	twinRounds := 2
+	if tier == "thorough" {
+		twinRounds = 40
+	}
+	twinModes := []string{"nil", "empty", "ret", "ret", "nothing", "error", "mixed"}
+	for round := 0; round < twinRounds; round++ {
+		for _, ver := range []string{"1", "2"} {
+			for _, kind := range fcTwinKinds {
+				for place := 0; place < fcTwinPlaces; place++ {
+					mode := Pick(r, twinModes)
+					sc := fcTwinScenario(r, ver, kind, place, mode)
+					if sc == nil {
+						o.Count("twin.gen-failed")
+						continue
+					}
+					rm := sc.rm
+					if round%2 == 0 {
+						res := o.Do("state", ver, rm.poolArg(), joinOrDash(sc.auth, ","), joinOrDash(sc.state, ","), fcIdxList(sc.badsig), sc.provArg(), fcSigClassArg(ver, rm.pool))
+						record("state", sc, res)
+						if round == 0 && place == 0 {
+							o.Sample("state(twin) " + ver + " faults=" + strings.Join(sc.labels, "+") + " auth=" + joinOrDash(sc.auth, ",") + " state=" + joinOrDash(sc.state, ",") + " badsig=" + fcIdxList(sc.badsig) + " -> " + res)
+						}
+						continue
+					}
+					u := "@newcomer:hs5"
+					join := rm.send(spec.MRoomMember, u, sp(u), map[string]interface{}{"membership": "join"}, false, nil)
+					if join == nil {
+						continue
+					}
+					res := o.Do("sendjoin", ver, rm.poolArg(), joinOrDash(sc.auth, ","), joinOrDash(sc.state, ","), fcIdxList(sc.badsig), sc.provArg(), strconv.Itoa(rm.idx[join]), fcSigClassArg(ver, rm.pool))
+					record("sendjoin", sc, res)
+				}
+			}
 		}
 	}
 	genFedcheckMore(o, tier, r)
@@ -1324,6 +1618,33 @@ func genFedcheckMore(o *Out, tier string, r *Rng) {
 		o.Count("chain.case." + label)
 		o.Count("chain.prov." + mode)
 	}
+	// ---- auth chains through a fetched auth event that cites nothing and is refused: every kind x every room version
+	rogueRounds := 1
+	if tier == "thorough" {
+		rogueRounds = 12
+	}
+	for round := 0; round < rogueRounds; round++ {
+		for _, ver := range fcVersions {
+			for _, kind := range fcRogueKinds {
+				rm, root, _ := fcRogueChain(r, ver, kind)
+				if rm == nil {
+					o.Count("chain.rogue.gen-failed")
+					continue
+				}
+				prov := rm.provTable(r, rm.history, "ret")
+				if r.Chance(40) {
+					// entries for IDs nobody cites may say anything: they are never asked for
+					prov = append(prov, "h"+hx([]byte("$nobody:hs1"))+"=r0")
+				}
+				res := o.Do("chain", ver, rm.poolArg(), strconv.Itoa(rm.idx[root]), joinOrDash(prov, ","))
+				o.Count("chain." + strings.SplitN(res, "|", 2)[0])
+				o.Count("chain.case.rogue-" + kind)
+				if round == 0 && ver == "6" {
+					o.Sample("chain(rogue-" + kind + ") " + ver + " -> " + res)
+				}
+			}
+		}
+	}
 	// ---- VerifyAuthRulesAtState
 	for i := 0; i < nAt; i++ {
 		ver := Pick(r, fcVersions)
@@ -1441,6 +1762,59 @@ func genFedcheckMore(o *Out, tier string, r *Rng) {
 			o.Count("load." + res[:6])
 		}
 	}
+	// the same chains through LoadAndVerify and RequestBackfill: the transaction carries the root alone, the root and
+	// the refused event, or the whole history; the provider has every event; the state before each event is its true state
+	backfillProps := func(args []string, res string) {
+		if strings.HasPrefix(res, "ok:") {
+			o.Do("backfill_props", append(append([]string{}, args...), hx([]byte(res)))...)
+		}
+	}
+	for round := 0; round < rogueRounds; round++ {
+		for _, ver := range fcVersions {
+			for _, kind := range fcRogueKinds {
+				rm, root, rogue := fcRogueChain(r, ver, kind)
+				if rm == nil {
+					continue
+				}
+				var evs []*Ev
+				switch r.Intn(3) {
+				case 0:
+					evs = []*Ev{root}
+				case 1:
+					evs = []*Ev{rogue, root}
+					if root == rogue {
+						evs = []*Ev{root}
+					}
+				default:
+					evs = append(evs, rm.history...)
+				}
+				var raws, sprov []string
+				for _, e := range evs {
+					raws = append(raws, rm.tok(e))
+					if rm.before[e] != nil {
+						sprov = append(sprov, rm.stateEntry(r, e, "ok"))
+					}
+				}
+				prov := rm.provTable(r, rm.history, "ret")
+				if round%2 == 0 {
+					res := o.Do("load", ver, rm.poolArg(), joinOrDash(raws, ","), "-", joinOrDash(prov, ","), joinOrDash(sprov, "|"), orderOf(rm, raws))
+					o.Count("load.case.rogue-" + kind)
+					if strings.Contains(res, "chain:") {
+						o.Count("load.has.chain")
+					}
+					if round == 0 && ver == "6" {
+						o.Sample("load(rogue-" + kind + ") " + ver + " raws=" + strings.Join(raws, ",") + " -> " + res)
+					}
+				}
+				if round%2 == 1 || tier != "thorough" {
+					args := []string{ver, rm.poolArg(), strings.Join(raws, ","), "-", joinOrDash(prov, ","), joinOrDash(sprov, "|"), orderOf(rm, raws), "100"}
+					res := o.Do("backfill", args...)
+					o.Count("backfill.case.rogue-" + kind)
+					backfillProps(args, res)
+				}
+			}
+		}
+	}
 	for i := 0; i < nBf; i++ {
 		ver := Pick(r, fcVersions)
 		rm := fcHistory(r, ver)
@@ -1469,7 +1843,9 @@ func genFedcheckMore(o *Out, tier string, r *Rng) {
 			sprov = append(sprov, sp...)
 		}
 		limit := strconv.Itoa(Pick(r, []int{1, 3, 5, 100}))
-		res := o.Do("backfill", ver, rm.poolArg(), strings.Join(servers, "|"), fcIdxList(badsig), joinOrDash(prov, ","), joinOrDash(sprov, "|"), joinOrDash(orders, "|"), limit)
+		bargs := []string{ver, rm.poolArg(), strings.Join(servers, "|"), fcIdxList(badsig), joinOrDash(prov, ","), joinOrDash(sprov, "|"), joinOrDash(orders, "|"), limit}
+		res := o.Do("backfill", bargs...)
+		backfillProps(bargs, res)
 		o.Count("backfill." + strings.SplitN(res, ":", 2)[0])
 		if strings.Contains(res, "|lasterr") {
 			o.Count("backfill.lasterr")
